@@ -117,7 +117,7 @@ impl Property for C08 {
     }
 
     fn cases(tier: Tier) -> u64 {
-        tier.pick(2_400, 40_000)
+        tier.pick(2_400, 160_000)
     }
 
     fn exhaustive_spaces(tier: Tier) -> Vec<String> {
